@@ -88,6 +88,22 @@ fn run_cli(cli: &str, logic: &str, data: &str, form: usize) -> (String, i64, Str
             let _ = stdin.write_all(data.as_bytes());
         }
     }
+    // a run that does not end within the limit is killed and reported with status 124
+    let started = std::time::Instant::now();
+    loop {
+        match child.try_wait() {
+            Ok(Some(_)) => break,
+            Ok(None) => {
+                if started.elapsed() > std::time::Duration::from_secs(15) {
+                    let _ = child.kill();
+                    let _ = child.wait();
+                    return (String::new(), 124, "killed: no exit status within 15 s".into());
+                }
+                std::thread::sleep(std::time::Duration::from_millis(2));
+            }
+            Err(_) => break,
+        }
+    }
     let out = child.wait_with_output().expect("wait");
     let code = out.status.code().map(|c| c as i64).unwrap_or(255);
     (
